@@ -596,4 +596,333 @@ theorem last_eq_sel (cfg : Cfg) (f : Frag) (v : JV) (hf : isDescent f = false)
     cases v <;> simp [Get.last, sel, Get.filterKids, members, Rep.simple, OKind.typed]
 
 
+theorem reverse_small {α : Type} (l : List α) (h : l.length ≤ 1) : l.reverse = l := by
+  match l with
+  | [] => rfl
+  | [a] => rfl
+  | a :: b :: t => simp at h
+
+theorem rev_flatMap_small {α β : Type} (l : List α) (F : α → List β) (h : ∀ a, (F a).length ≤ 1) :
+    (l.reverse.flatMap F).reverse = l.flatMap F := by
+  induction l with
+  | nil => rfl
+  | cons a t ih =>
+    simp only [List.reverse_cons, List.flatMap_append, List.flatMap_cons, List.flatMap_nil, List.append_nil,
+      List.reverse_append, ih, reverse_small (F a) (h a)]
+
+theorem flatMap_reverse_small {α β : Type} (l : List α) (F : α → List β) (h : ∀ a, (F a).length ≤ 1) :
+    (l.flatMap F).reverse = l.reverse.flatMap F := by
+  have := rev_flatMap_small l.reverse F h
+  rw [List.reverse_reverse] at this
+  exact this
+
+theorem mKey_small (k : Bytes) (v : JV) : (mKey k v).length ≤ 1 := by
+  cases v with
+  | obj kvs => simp only [mKey]; cases lookup k kvs <;> simp
+  | _ => simp [mKey]
+
+theorem mIdx_small (i : Int) (v : JV) : (mIdx i v).length ≤ 1 := by
+  cases v with
+  | arr xs =>
+    simp only [mIdx]
+    generalize (if i < 0 then (xs.length : Int) + i else i) = j
+    by_cases hc : 0 ≤ j ∧ j < (xs.length : Int)
+    · simp only [hc, and_self, ↓reduceIte]
+      cases xs[j.toNat]? <;> simp
+    · simp [hc]
+  | _ => simp [mIdx]
+
+theorem mMember_small (v : JV) (mb : Member) : (mMember v mb).length ≤ 1 := by
+  cases mb with
+  | key k => exact mKey_small k v
+  | idx i => exact mIdx_small i v
+
+theorem contOnly_small (l : List (Path × JV)) (h : l.length ≤ 1) : (contOnly l).length ≤ 1 :=
+  Nat.le_trans (List.length_filter_le _ _) h
+
+def isFilter : Frag → Bool
+  | .filter _ => true
+  | _ => false
+
+/-- inner slice fragments whose step is -1, 0 or 1 (absent = 1) cannot meet the `innerEmptySlice` deviation -/
+def narrow : Frag → Bool
+  | .slice _ _ t => decide (-1 ≤ t.getD 1 ∧ t.getD 1 ≤ 1)
+  | _ => true
+
+theorem slicePush_rev (cfg : Cfg) (s e t : Option Int) (v : JV)
+    (hok : cfg.innerEmptySlice = false ∨ (-1 ≤ t.getD 1 ∧ t.getD 1 ≤ 1)) :
+    (Get.slicePush cfg Rep.simple s e t v).reverse = Get.sliceLast Rep.simple s e t v := by
+  cases v with
+  | arr xs =>
+    simp only [Get.slicePush, Get.sliceLast, Get.normFor, Rep.simple, AK.typed, Bool.false_eq_true, ↓reduceIte]
+    rw [norm_eq]
+    by_cases h0 : t.getD 1 = 0
+    · simp [h0]
+    · by_cases hst : (xs.length : Int) ≤ nStart xs.length s
+      · simp [h0, hst]
+      · simp only [h0, hst, ↓reduceIte]
+        rw [flatMap_reverse_small _ _ (elemAt_small xs)]
+        have hs0 := nStart_nonneg xs.length s
+        rw [innerIdx_rev cfg xs.length _ (by omega) (by simpa using h0)
+          (by intro hp; have := nStop_le true xs.length e t hp; simp only; omega)
+          (by intro hp; have := nStop_ge true xs.length e t hp; simp only; omega)
+          (by simpa using hok)]
+  | _ => simp [Get.slicePush, Get.sliceLast]
+
+/-- **inner position**: what a non-descent fragment pushes, popped, is what it selects (a filter) or the
+containers among what it selects (every other fragment) -/
+theorem inner_eq (cfg : Cfg) (f : Frag) (v : JV) (hf : isDescent f = false)
+    (hok : cfg.innerEmptySlice = false ∨ narrow f = true)
+    (hlen : ∀ xs, v = .arr xs → (xs.length : Int) ≤ maxEnd) :
+    (Get.push cfg Rep.simple f v).reverse = if isFilter f then sel f v else contOnly (sel f v) := by
+  cases f with
+  | descent => simp [isDescent] at hf
+  | child k =>
+    simp only [Get.push, isFilter, Bool.false_eq_true, ↓reduceIte, sel, ← mKey_eq]
+    exact reverse_small _ (contOnly_small _ (mKey_small k v))
+  | nth i =>
+    simp only [Get.push, isFilter, Bool.false_eq_true, ↓reduceIte, sel, ← mIdx_eq]
+    exact reverse_small _ (contOnly_small _ (mIdx_small i v))
+  | wild =>
+    have hl := last_eq_sel cfg .wild v rfl hlen
+    simp only [Get.last] at hl
+    simp only [Get.push, isFilter, Bool.false_eq_true, ↓reduceIte, contOnly, List.filter_reverse,
+      List.reverse_reverse, hl]
+  | union ms =>
+    have hfun : (fun mb => contOnly (mMember v mb)) = fun mb => contOnly (selMember v mb) := by
+      funext mb; rw [mMember_eq]
+    simp only [Get.push, isFilter, Bool.false_eq_true, ↓reduceIte, sel]
+    rw [rev_flatMap_small _ _ (fun mb => contOnly_small _ (mMember_small v mb)), hfun]
+    simp [contOnly, List.filter_flatMap]
+  | slice s e t =>
+    have hok' : cfg.innerEmptySlice = false ∨ (-1 ≤ t.getD 1 ∧ t.getD 1 ≤ 1) := by
+      rcases hok with h | h
+      · exact Or.inl h
+      · exact Or.inr (by simpa [narrow] using h)
+    simp only [Get.push, isFilter, Bool.false_eq_true, ↓reduceIte, contOnly, ← List.filter_reverse]
+    rw [slicePush_rev cfg s e t v hok', sliceLast_eq s e t v hlen]
+  | filter p =>
+    have hl := last_eq_sel cfg (.filter p) v rfl hlen
+    simp only [Get.last] at hl
+    simp only [Get.push, isFilter, ↓reduceIte, List.reverse_reverse, hl]
+
+
+theorem contOnly_map_pfx (l : Loc) (ms : List (Path × JV)) : contOnly (ms.map (pfx l)) = (contOnly ms).map (pfx l) := by
+  simp [contOnly, List.filter_map, Function.comp_def]
+
+theorem contOnly_append (a b : List (Path × JV)) : contOnly (a ++ b) = contOnly a ++ contOnly b := by
+  simp [contOnly]
+
+mutual
+/-- inner descent: the nodes the machine applies the rest of the path to are the containers among the
+node and everything below it (the node itself when it is not a container) -/
+theorem nodesInner_eq : ∀ (v : JV), nodesInner v = if isContainer v then contOnly (desc v) else desc v
+  | .arr xs => by
+    simp only [nodesInner, isContainer, ↓reduceIte, desc, contOnly_append, nodesInnerL_eq xs 0]
+    simp [contOnly, isContainer]
+  | .obj kvs => by
+    simp only [nodesInner, isContainer, ↓reduceIte, desc, contOnly_append, nodesInnerKV_eq kvs]
+    simp [contOnly, isContainer]
+  | .null => by simp [nodesInner, desc, isContainer]
+  | .bool _ => by simp [nodesInner, desc, isContainer]
+  | .int _ => by simp [nodesInner, desc, isContainer]
+  | .flt _ => by simp [nodesInner, desc, isContainer]
+  | .big _ => by simp [nodesInner, desc, isContainer]
+  | .num _ => by simp [nodesInner, desc, isContainer]
+  | .str _ => by simp [nodesInner, desc, isContainer]
+theorem nodesInnerL_eq : ∀ (xs : List JV) (i : Nat), nodesInnerL i xs = contOnly (descArr i xs)
+  | [], i => by simp [nodesInnerL, descArr, contOnly]
+  | x :: r, i => by
+    simp only [nodesInnerL, descArr, contOnly_append, contOnly_map_pfx, nodesInnerL_eq r (i + 1)]
+    congr 1
+    have hx := nodesInner_eq x
+    by_cases hc : isContainer x = true
+    · simp only [hc, ↓reduceIte] at hx ⊢
+      rw [hx]
+    · have hc' : isContainer x = false := by simpa using hc
+      simp only [hc', Bool.false_eq_true, ↓reduceIte] at hx ⊢
+      rw [← hx, isContainer_false_nodesInner x hc']
+      simp [contOnly, hc']
+theorem nodesInnerKV_eq : ∀ (kvs : List (Bytes × JV)), nodesInnerKV kvs = contOnly (descObj kvs)
+  | [] => by simp [nodesInnerKV, descObj, contOnly]
+  | m :: r => by
+    simp only [nodesInnerKV, descObj, contOnly_append, contOnly_map_pfx, nodesInnerKV_eq r]
+    congr 1
+    have hx := nodesInner_eq m.2
+    by_cases hc : isContainer m.2 = true
+    · simp only [hc, ↓reduceIte] at hx ⊢
+      rw [hx]
+    · have hc' : isContainer m.2 = false := by simpa using hc
+      simp only [hc', Bool.false_eq_true, ↓reduceIte] at hx ⊢
+      rw [← hx, isContainer_false_nodesInner m.2 hc']
+      simp [contOnly, hc']
+end
+
+/-- a non-container selects nothing under a fragment other than a descent -/
+theorem sel_leaf (f : Frag) (v : JV) (hf : isDescent f = false) (hv : isContainer v = false) : sel f v = [] := by
+  cases f with
+  | descent => simp [isDescent] at hf
+  | child k => cases v <;> simp_all [sel, selMember, isContainer]
+  | nth i => cases v <;> simp_all [sel, selMember, isContainer]
+  | wild => cases v <;> simp_all [sel, members, isContainer]
+  | union ms =>
+    simp only [sel]
+    have : ∀ mb, selMember v mb = [] := by
+      intro mb
+      cases mb <;> cases v <;> simp_all [selMember, isContainer]
+    simp [this]
+  | slice s e t => cases v <;> simp_all [sel, isContainer]
+  | filter p => cases v <;> simp_all [sel, members, isContainer]
+
+theorem desc_leaf (v : JV) (hv : isContainer v = false) : desc v = [([], v)] := by
+  cases v <;> simp_all [desc, isContainer]
+
+/-- a path that does not consist of descents only yields nothing on a non-container -/
+theorem eval_leaf : ∀ (r : List Frag) (v : JV), r.all isDescent = false → isContainer v = false → eval r v = []
+  | [], v, h, _ => by simp at h
+  | f :: r, v, h, hv => by
+    by_cases hf : isDescent f = true
+    · have hfd : f = .descent := by cases f <;> simp_all [isDescent]
+      subst hfd
+      have hr : r.all isDescent = false := by simpa [isDescent] using h
+      simp only [eval, sel, desc_leaf v hv, List.flatMap_cons, List.flatMap_nil, List.append_nil,
+        eval_leaf r v hr hv, List.map_nil]
+    · simp [eval, sel_leaf f v (by simpa using hf) hv]
+
+
+/-- no descent directly after a fragment other than a descent (where `descentSiblings` bites) -/
+def noDescAfter : List Frag → Bool
+  | [] => true
+  | [_] => true
+  | f :: g :: r => !(isDescent g && !isDescent f) && noDescAfter (g :: r)
+
+def endsInDescent : List Frag → Bool
+  | [] => false
+  | [f] => isDescent f
+  | _ :: g :: r => endsInDescent (g :: r)
+
+theorem not_all_descent (x : List Frag) (hx : x ≠ []) (h : endsInDescent x = false) : x.all isDescent = false := by
+  induction x with
+  | nil => exact absurd rfl hx
+  | cons f t ih =>
+    cases t with
+    | nil => simpa [endsInDescent] using h
+    | cons g r =>
+      have := ih (by simp) (by simpa [endsInDescent] using h)
+      simp only [List.all_cons, Bool.and_eq_false_iff] at this ⊢
+      exact Or.inr (by simpa using this)
+
+theorem flatMap_contOnly (l : List (Path × JV)) (F : Path × JV → List (Path × JV))
+    (hF : ∀ m, isContainer m.2 = false → F m = []) : (contOnly l).flatMap F = l.flatMap F := by
+  induction l with
+  | nil => rfl
+  | cons a t ih =>
+    by_cases hc : isContainer a.2 = true
+    · simp [contOnly, hc] at ih ⊢; rw [ih]
+    · have hc' : isContainer a.2 = false := by simpa using hc
+      simp [contOnly, hc', hF a hc'] at ih ⊢; rw [ih]
+
+/-- the inner selection of Get on simple data, as far as the rest of the path can tell -/
+theorem inner_flatMap (cfg : Cfg) (f : Frag) (v : JV)
+    (hok : cfg.innerEmptySlice = false ∨ narrow f = true)
+    (hlen : ∀ xs, v = .arr xs → (xs.length : Int) ≤ maxEnd)
+    (F : Path × JV → List (Path × JV)) (hF : ∀ m, isContainer m.2 = false → F m = []) :
+    ((Get.sel cfg Rep.simple).inner f v).flatMap F = (sel f v).flatMap F := by
+  by_cases hf : isDescent f = true
+  · have hfd : f = .descent := by cases f <;> simp_all [isDescent]
+    subst hfd
+    simp only [Get.sel, Get.push, sel]
+    have hcut : (cfg.typedMapWild && decide (Rep.simple.ok = OKind.rmap)) = false := by
+      cases cfg.typedMapWild <;> rfl
+    simp only [hcut, Bool.false_eq_true, ↓reduceIte, List.reverse_reverse]
+    rw [nodesInner_eq]
+    by_cases hc : isContainer v = true
+    · simp only [hc, ↓reduceIte]; exact flatMap_contOnly _ F hF
+    · simp [hc]
+  · have hf' : isDescent f = false := by simpa using hf
+    simp only [Get.sel]
+    rw [inner_eq cfg f v hf' hok hlen]
+    by_cases hfi : isFilter f = true
+    · simp [hfi]
+    · simp only [hfi, Bool.false_eq_true, ↓reduceIte]
+      exact flatMap_contOnly _ F hF
+
+theorem inner_subset (cfg : Cfg) (f : Frag) (v : JV)
+    (hok : cfg.innerEmptySlice = false ∨ narrow f = true)
+    (hlen : ∀ xs, v = .arr xs → (xs.length : Int) ≤ maxEnd) :
+    ∀ m ∈ (Get.sel cfg Rep.simple).inner f v, m ∈ sel f v := by
+  intro m hm
+  by_cases hf : isDescent f = true
+  · have hfd : f = .descent := by cases f <;> simp_all [isDescent]
+    subst hfd
+    simp only [Get.sel, Get.push] at hm
+    have hcut : (cfg.typedMapWild && decide (Rep.simple.ok = OKind.rmap)) = false := by
+      cases cfg.typedMapWild <;> rfl
+    simp only [hcut, Bool.false_eq_true, ↓reduceIte, List.reverse_reverse] at hm
+    rw [nodesInner_eq] at hm
+    simp only [sel]
+    by_cases hc : isContainer v = true
+    · simp only [hc, ↓reduceIte, contOnly, List.mem_filter] at hm; exact hm.1
+    · simpa [hc] using hm
+  · have hf' : isDescent f = false := by simpa using hf
+    simp only [Get.sel] at hm
+    rw [inner_eq cfg f v hf' hok hlen] at hm
+    by_cases hfi : isFilter f = true
+    · simpa [hfi] using hm
+    · simp only [hfi, Bool.false_eq_true, ↓reduceIte, contOnly, List.mem_filter] at hm; exact hm.1
+
+theorem arr_len_le (v : JV) (B : Int) (h : (jsize v : Int) ≤ B) : ∀ xs, v = .arr xs → (xs.length : Int) ≤ B := by
+  intro xs hv
+  subst hv
+  have := length_le_jsizeL xs
+  simp only [jsize] at h
+  omega
+
+/-- **Get on simple data selects exactly what the path denotes, with locations** — for every
+configuration of the deviation flags under the hypotheses that keep the flagged branches out -/
+theorem getS_eq_eval (cfg : Cfg) : ∀ (x : List Frag) (v : JV),
+    (cfg.descentSiblings = false ∨ noDescAfter x = true) →
+    (cfg.innerEmptySlice = false ∨ x.dropLast.all narrow = true) →
+    endsInDescent x = false → (jsize v : Int) ≤ maxEnd →
+    evalSel (Get.sel cfg Rep.simple) cfg.descentSiblings x v = eval x v
+  | [], v, _, _, _, _ => by simp [evalSel, eval]
+  | [f], v, _, _, ht, hz => by
+    have hf : isDescent f = false := by simpa [endsInDescent] using ht
+    simp only [evalSel, eval, Get.sel]
+    rw [last_eq_sel cfg f v hf (arr_len_le v _ hz)]
+    simp
+  | f :: g :: r, v, hs, he, ht, hz => by
+    have hlen := arr_len_le v _ hz
+    have hokf : cfg.innerEmptySlice = false ∨ narrow f = true := by
+      rcases he with h | h
+      · exact Or.inl h
+      · exact Or.inr (by simp only [List.dropLast_cons_cons, List.all_cons, Bool.and_eq_true] at h; exact h.1)
+    have hs' : cfg.descentSiblings = false ∨ noDescAfter (g :: r) = true := by
+      rcases hs with h | h
+      · exact Or.inl h
+      · exact Or.inr (by simp only [noDescAfter, Bool.and_eq_true] at h; exact h.2)
+    have he' : cfg.innerEmptySlice = false ∨ (g :: r).dropLast.all narrow = true := by
+      rcases he with h | h
+      · exact Or.inl h
+      · exact Or.inr (by simp only [List.dropLast_cons_cons, List.all_cons, Bool.and_eq_true] at h; exact h.2)
+    have ht' : endsInDescent (g :: r) = false := by simpa [endsInDescent] using ht
+    have hsib : (cfg.descentSiblings && isDescent g && !isDescent f) = false := by
+      rcases hs with h | h
+      · simp [h]
+      · simp only [noDescAfter, Bool.and_eq_true, Bool.not_eq_true'] at h
+        cases hd : cfg.descentSiblings <;> simp_all
+    rw [evalSel]
+    simp only [hsib, Bool.false_eq_true, ↓reduceIte]
+    have hrec : ∀ m ∈ (Get.sel cfg Rep.simple).inner f v,
+        pre m.1 (evalSel (Get.sel cfg Rep.simple) cfg.descentSiblings (g :: r) m.2) = pre m.1 (eval (g :: r) m.2) := by
+      intro m hm
+      have hmem := inner_subset cfg f v hokf hlen m hm
+      have hsz := sel_size f v m hmem
+      rw [getS_eq_eval cfg (g :: r) m.2 hs' he' ht' (by omega)]
+    rw [flatMap_congr' _ _ _ hrec]
+    rw [inner_flatMap cfg f v hokf hlen (fun m => pre m.1 (eval (g :: r) m.2))
+      (by intro m hm; simp [pre, eval_leaf (g :: r) m.2 (not_all_descent _ (by simp) ht') hm])]
+    simp [eval, pre]
+
+
 end OjgVerif.JPath
